@@ -1,10 +1,11 @@
-(* C13 — value, entity and entity-map JSON round-trips without loss (on JSON trees; bytes <-> tree is encoding/json).
-   Models: Impl/ValueJson.v (values, tied by jsonenc / jsondec), Impl/EntityJson.v (entities and entity maps, tied by ejsonenc / ejsondec).
-   Proofs: Proofs/ValueJsonProofs.v, Proofs/EntityJsonProofs.v.
-   Requests and diagnostics, and schema-guided coercion of implicit spellings, are decided by the direct oracle of the check only. *)
-From Coq Require Import ZArith List Bool Permutation.
+(* C13 — value, entity, entity-map, request and diagnostic JSON round-trips without loss (on JSON trees; bytes <-> tree is encoding/json).
+   Models: Impl/ValueJson.v (values, tied by jsonenc / jsondec), Impl/EntityJson.v (entities and entity maps, tied by ejsonenc / ejsondec),
+   Impl/RequestJson.v (requests, decisions, diagnostics: tied by rjsonenc / rjsondec / djsonenc / djsondec / decjson).
+   Proofs: Proofs/ValueJsonProofs.v, Proofs/EntityJsonProofs.v, Proofs/RequestJsonProofs.v. *)
+From Coq Require Import ZArith List Bool Permutation String.
+Import ListNotations.
 From Cedar Require Import Base.Json Lang.Value Lang.Expr Impl.IPAddr Impl.ValueJson Impl.PolicyJson Impl.EntityJson Proofs.ValueProofs Proofs.ValueJsonProofs
-  Proofs.EntityJsonProofs.
+  Proofs.EntityJsonProofs Impl.RequestJson Proofs.RequestJsonProofs.
 
 Section C13.
   Variable print_ip : bool -> Z -> Z -> str.           (* net/netip's printer: not modelled *)
@@ -53,6 +54,59 @@ Section C13.
   Proof. exact (enc_entity_map_perm print_ip ord ukey ukey_inj). Qed.
 End C13.
 
+(* ---- requests, decisions and diagnostics (Impl/RequestJson.v) ---- *)
+Section C13Request.
+  Variable print_ip : bool -> Z -> Z -> str.
+  Variable ord : list json -> list json.
+  Hypothesis ord_perm : forall l, Permutation (ord l) l.
+  Variable ip_ok : bool -> Z -> Z -> bool.
+  Hypothesis ip_roundtrip : forall v6 a p, ip_ok v6 a p = true -> parse_ip (print_ip v6 a p) = Some (v6, a, p).
+
+  (* request_wf: the context is json_safe with plain keys (no key that matches a member name of the request codec only up to case: the
+     limit of the model's decoder domain); the three uids are ANY two strings *)
+  Theorem C13_request_roundtrip : forall rq, request_wf ip_ok rq ->
+    exists rq', dec_request (enc_request print_ip ord rq) = DOk rq' /\ request_equiv rq rq'.
+  Proof. exact (dec_enc_request print_ip ord ord_perm ip_ok ip_roundtrip). Qed.
+
+  Theorem C13_request_roundtrip_exact : forall rq, (forall l, ord l = l) -> request_wf ip_ok rq ->
+    dec_request (enc_request print_ip ord rq) = DOk rq.
+  Proof. exact (dec_enc_request_eq print_ip ord ord_perm ip_ok ip_roundtrip). Qed.
+
+  Theorem C13_request_second_encoding : forall rq rq', (forall l, ord l = l) -> request_wf ip_ok rq ->
+    dec_request (enc_request print_ip ord rq) = DOk rq' -> enc_request print_ip ord rq' = enc_request print_ip ord rq.
+  Proof. exact (request_second_encoding print_ip ord ord_perm ip_ok ip_roundtrip). Qed.
+
+  (* every accepted spelling of principal, action and resource - explicit __entity escape or implicit {type, id}, independently - decodes to
+     the same request *)
+  Theorem C13_request_spellings : forall sp1 sp2 sp3 rq, spelling print_ip ord sp1 -> spelling print_ip ord sp2 -> spelling print_ip ord sp3 ->
+    request_wf ip_ok rq ->
+    dec_request (JObj [(k "principal", sp1 (rq_principal rq)); (k "action", sp2 (rq_action rq)); (k "resource", sp3 (rq_resource rq));
+                       (k "context", enc_record print_ip ord (rq_context rq))])
+    = dec_request (enc_request print_ip ord rq).
+  Proof. exact (request_spellings print_ip ord ord_perm ip_ok). Qed.
+End C13Request.
+
+(* diagnostics: exact round trip for every diagnostic whose positions are 64-bit ints - including the shapes in which the encoder omits
+   an empty list - and exactly those; a decoded diagnostic never holds an out-of-range int *)
+Theorem C13_diagnostic_roundtrip : forall d, diag_wf d -> dec_diagnostic (enc_diagnostic d) = DOk d.
+Proof. exact dec_enc_diagnostic. Qed.
+Theorem C13_diagnostic_roundtrip_iff : forall d, dec_diagnostic (enc_diagnostic d) = DOk d <-> diag_wf d.
+Proof. exact dec_enc_diagnostic_iff. Qed.
+Theorem C13_diagnostic_second_encoding : forall d d', diag_wf d -> dec_diagnostic (enc_diagnostic d) = DOk d' -> enc_diagnostic d' = enc_diagnostic d.
+Proof. exact diagnostic_second_encoding. Qed.
+Theorem C13_diagnostic_ints_in_range : forall j d, dec_diagnostic j = DOk d -> diag_wf d.
+Proof. exact diag_int_range. Qed.
+Theorem C13_decision_roundtrip : forall b, dec_decision (enc_decision b) = b.
+Proof. exact dec_enc_decision. Qed.
+Theorem C13_request_decoder_total : forall j, dec_request j <> DFuel.
+Proof. exact dec_request_total. Qed.
+Theorem C13_diagnostic_decoder_total : forall j, dec_diagnostic j <> DFuel.
+Proof. exact dec_diagnostic_total. Qed.
+(* with the concrete ipaddr printer (Impl/IPPrint.v), the exact set of round-tripping ip values (Proofs/IPProofs.v) and the identity member
+   order: no hypothesis left *)
+Theorem C13_request_roundtrip_concrete : forall rq, request_wf IPProofs.ip_ok rq -> dec_request (enc_request IPPrint.print_ip rq_id rq) = DOk rq.
+Proof. exact rq_concrete_roundtrip. Qed.
+
 Theorem C13_entity_decoder_total : forall j, dec_entity_map j <> DFuel.
 Proof. exact dec_entity_map_total. Qed.
 
@@ -70,3 +124,15 @@ Print Assumptions C13_entity_map_second_encoding.
 Print Assumptions C13_entity_spellings.
 Print Assumptions C13_entity_map_order_independent.
 Print Assumptions C13_entity_decoder_total.
+Print Assumptions C13_request_roundtrip.
+Print Assumptions C13_request_roundtrip_exact.
+Print Assumptions C13_request_second_encoding.
+Print Assumptions C13_request_spellings.
+Print Assumptions C13_diagnostic_roundtrip.
+Print Assumptions C13_diagnostic_roundtrip_iff.
+Print Assumptions C13_diagnostic_second_encoding.
+Print Assumptions C13_diagnostic_ints_in_range.
+Print Assumptions C13_decision_roundtrip.
+Print Assumptions C13_request_decoder_total.
+Print Assumptions C13_diagnostic_decoder_total.
+Print Assumptions C13_request_roundtrip_concrete.
